@@ -230,6 +230,9 @@ package starlark
 //@   ensures int_float: depth >= 1 && typeis(x, Int) && typeis(y, Float) ==> err == nil && result0 == tw(op, ifcmp(val(as(x, Int)), as(y, Float)))
 //@   ensures float_int: depth >= 1 && typeis(x, Float) && typeis(y, Int) ==> err == nil && result0 == tw(op, -ifcmp(val(as(y, Int)), as(x, Float)))
 //@   ensures depth_guard: depth < 1 ==> err != nil
+// (Int against Int is dispatched to Int.Cmp through the TotallyOrdered interface; dynamic dispatch is
+// not modelled, so this arm is assumed -- Int.Cmp itself is proved -- and listed in the evidence)
+//@   abstraction ints_go_through_Int_Cmp: depth >= 1 && op == syntax.EQL && typeis(x, Int) && typeis(y, Int) ==> err == nil && result0 == (val(as(x, Int)) == val(as(y, Int)))
 
 // ---- index normalisation (C13). Python rule: a negative index counts from the end;
 // the result is then clamped to the legal range for the stride's direction.
@@ -324,12 +327,14 @@ package starlark
 //@   decreases depth, 2
 //@   modifies nothing
 //@ func Equal
-//@   prop C06
+//@   prop C06 C11
 //@   modifies nothing
+//@   ensures ints_are_equal_by_value: CompareLimit >= 1 && typeis(param(x), Int) && typeis(y, Int) ==> result1 == nil && result0 == (val(as(param(x), Int)) == val(as(y, Int)))
 //@ func EqualDepth
 //@   prop C06 C11
 //@   decreases depth, 4
 //@   modifies nothing
+//@   ensures ints_are_equal_by_value: depth >= 1 && typeis(x, Int) && typeis(y, Int) ==> result1 == nil && result0 == (val(as(x, Int)) == val(as(y, Int)))
 //@ func Compare
 //@   prop C06 C11
 //@   requires iscmp(op)
@@ -468,6 +473,7 @@ package starlark
 //@   prop C04 C05
 //@   modifies List.frozen, hashtable.frozen, Function.frozen, starlarkstruct.Struct.frozen, $mem:bool, $ghost:frz
 //@   ensures ghost: frz(d)
+//@   bodyensures 1 every_global_is_frozen: frz(v)
 // A finished module's globals are frozen whether initialisation succeeded or failed.
 //@ func ExecFileOptions
 //@   prop C04
@@ -599,7 +605,8 @@ package starlark
 //@ func findParam
 //@   prop C08
 //@   pure
-//@   invariant 1 rangeindex >= -1 && forall(k, 0, rangeindex + 1, params[k].Name != name)
+//@   nopanic
+//@   invariant 1 rangeindex >= -1 && rangeindex < len(params) && forall(k, 0, rangeindex + 1, params[k].Name != name)
 //@   ensures first_match: result == -1 || (0 <= result && result < len(params) && params[result].Name == name && forall(k, 0, result, params[k].Name != name))
 //@   ensures none_means_absent: result == -1 ==> forall(k, 0, len(params), params[k].Name != name)
 
@@ -963,11 +970,11 @@ package starlark
 //@   ensures released_frame_is_blank: isnil(fr.callable) && fr.pc == 0 && isnil(fr.locals) && len(fr.locals) == 0 && fr.spanStart == 0
 // the same for the push iterator over a hashtable (Dict.Entries, Set.Elements)
 //@ func hashtable.entries$1
-//@   prop C06
+//@   prop C06 C12
 //@   modifies hashtable.itercount
 //@   ensures ht.itercount == wrapu32(old(ht.itercount) - 1)
 //@ func hashtable.entries
-//@   prop C06
+//@   prop C06 C12
 //@   callback yield preserves captured(ht)
 //@   callback yield preserves param(ht).itercount
 //@   invariant 1 captured(ht) == param(ht) && param(ht).itercount == ite(old(ht.frozen), old(ht.itercount), wrapu32(old(ht.itercount) + 1))
@@ -1025,7 +1032,7 @@ package starlark
 //@   pure
 //@   abstraction names_the_length: result == vlen(x)
 //@ func zip
-//@   prop C13
+//@   prop C13 C02
 //@   invariant 1 rangeindex >= -1 && cols == len(args) && forall(k, 0, rangeindex + 1, rows <= vlen(args[k])) && (rangeindex < 0 ==> rows == 0)
 //@   assert /if rows >= 0 \{/ no_more_rows_than_the_shortest_argument: forall(k, 0, len(args), rows <= vlen(args[k]))
 
@@ -1043,7 +1050,8 @@ package starlark
 // ---- size guards (C02): a repetition whose result would have 2^30 elements or more is refused
 // before anything is allocated; so is a left shift by 512 bits or more
 //@ func tupleRepeat
-//@   prop C02 C13
+//@   prop C02 C13 C04 C06
+//@   ensures repetition_has_storage_of_its_own: result1 == nil && len(result0) > 0 ==> freshobj(storeof(result0))
 //@   ensures excessive_repeat_refused: len(elems) > 0 && val(n) >= 1 && val(n) * len(elems) >= 1073741824 ==> result1 != nil
 //@   ensures no_oversized_result: result1 == nil ==> len(result0) < 1073741824
 //@ func stringRepeat
@@ -1077,3 +1085,22 @@ package starlark
 //@   ensures frame_popped: len(param(thread).stack) == old(len(thread.stack))
 //@ func Thread.evalError
 //@   modifies nothing
+
+// ---- round-4 additions
+// positional-only built-ins refuse keyword arguments whatever the number of positional ones (C08)
+//@ func checkPositionalArgs
+//@   prop C08
+//@   ensures keywords_always_refused: len(kwargs) > 0 ==> result != nil
+// list(x) never shares storage with its argument (C04, C13)
+//@ func list
+//@   prop C04 C13
+//@   invariant 1 cap(elems) > 0 ==> freshobj(storeof(elems))
+//@   ensures new_list_has_storage_of_its_own: result1 == nil && len(as(result0, *List).elems) > 0 ==> freshobj(storeof(as(result0, *List).elems))
+// d.setdefault(k, v) keeps the present value exactly when k is a key -- also when that value is None (C12)
+//@ func dict_setdefault
+//@   prop C12
+//@   assert /return v, nil/ key_is_present: M(sub(dict, 0), kcl(key))
+// x % y on floats takes the sign of the divisor (C10; the spec: "the result has the same sign as the divisor")
+//@ func Float.Mod
+//@   prop C10
+//@   ensures remainder_takes_the_sign_of_the_divisor: isFinite(x) && isFinite(y) && y != 0.0 ==> (result <= 0.0 && result >= 0.0) || isNeg(result) == isNeg(y)
